@@ -523,6 +523,43 @@ class Spec:
         raise Problem("unknown op %r" % line)
 
 
+def sent_reports_problem(line, ob):
+    """C14 under allocation failure: whatever a synchronisation hands to the transport is a sequence of complete PDUs of the
+    socket's version, and an Error Report encapsulates nothing, the 8 header bytes of a PDU of the response, or one of
+    its PDUs whole - byte for byte as received."""
+    m = re.search(r" tx=(\S+)", ob.get("extra") or "")
+    if not m or m.group(1) == "-":
+        return None
+    tx = b"".join(bytes.fromhex(x) for x in m.group(1).split(","))
+    rx = bytes.fromhex(line.split()[2])
+    rpdus, i = [], 0
+    while i + 8 <= len(rx):
+        ln = struct.unpack(">I", rx[i + 4:i + 8])[0]
+        if ln < 8:
+            break
+        rpdus.append(rx[i:i + ln])
+        i += ln
+    i = 0
+    while i < len(tx):
+        if i + 8 > len(tx):
+            return "trailing %d bytes sent that are not a PDU header" % (len(tx) - i)
+        ver, typ = tx[i], tx[i + 1]
+        ln = struct.unpack(">I", tx[i + 4:i + 8])[0]
+        if ver != 1 or ln < 8 or ln > 3248 or i + ln > len(tx):
+            return "sent bytes at offset %d are not a complete version-1 PDU (version %d, type %d, length %d)" % (i, ver, typ, ln)
+        p = tx[i:i + ln]
+        if typ == 10:
+            el = struct.unpack(">I", p[8:12])[0] if ln >= 12 else 0
+            if 12 + el + 4 > ln:
+                return "Error Report with encapsulated length %d in %d bytes" % (el, ln)
+            enc = p[12:12 + el]
+            if el and not any(enc == r or enc == r[:8] for r in rpdus):
+                return "Error Report (code %d) encapsulates %d bytes that are neither a PDU of the response nor its header: %s" % (
+                    struct.unpack(">H", p[2:4])[0], el, enc.hex()[:80])
+        i += ln
+    return None
+
+
 def judge_spec(lines, obs, crash):
     """-> None or (index, text, key)"""
     sp = Spec()
@@ -531,6 +568,10 @@ def judge_spec(lines, obs, crash):
             sp.step(lines[i], ob)
         except Problem as p:
             return (i, "op %r: %s" % (lines[i][:120], p.text), p.key)
+        if ob.get("k") == "op" and lines[i].startswith("sync "):
+            bad = sent_reports_problem(lines[i], ob)
+            if bad:
+                return (i, "op %r: %s" % (lines[i][:60], bad), "sent-report-under-fault")
     if crash is not None:
         i = crash["at"]
         op = lines[i].split()[0] if i < len(lines) else "?"
